@@ -35,6 +35,11 @@ Proof.
   apply drop_skip.
 Qed.
 
+Lemma str_app_assoc : forall a b c : string, (a ++ (b ++ c))%string = ((a ++ b) ++ c)%string.
+Proof.
+  induction a as [|x a IH]; intros b c; cbn [String.append]; [reflexivity|]. rewrite IH. reflexivity.
+Qed.
+
 Lemma has_dot_app : forall a b, has_dot (a ++ b) = has_dot a || has_dot b.
 Proof.
   induction a as [|c a IH]; intros b; cbn [String.append has_dot]; [reflexivity|].
@@ -203,6 +208,15 @@ Section Repaired.
     rewrite forwardref_fixed. destruct (fr_spec st r) as [n m]. reflexivity.
   Qed.
 
+  Definition probe_spec (st : list frame) (t : key) : res obj :=
+    match t with KStr x => evaluate W (fr_spec st x) | KRef n m => evaluate W (n, m) end.
+
+  Lemma bytes_probe_fixed : forall s st t, bytes_probe true W L s st t = (s, probe_spec st t).
+  Proof.
+    intros s st [x|n m]; cbn [bytes_probe probe_spec]; [|reflexivity].
+    rewrite forwardref_fixed. reflexivity.
+  Qed.
+
   Lemma q_spec_ref : forall st t, is_ref (q_spec st t).
   Proof. intros st [r|n m]; exact I. Qed.
 
@@ -213,17 +227,18 @@ Section Repaired.
     (forall k o, In (k, o) (m_so s) -> eval_key W k = Ok o) /\
     (forall k kw o, In ((k, kw), o) (m_un s) -> eval_key W k = Ok o) /\
     (forall k kw o, In ((k, kw), o) (m_ma s) -> eval_key W k = Ok o) /\
-    (forall k om ou, In (k, (om, ou)) (m_cd s) -> eval_key W k = Ok om /\ eval_key W k = Ok ou).
+    (forall k om ou, In (k, (om, ou)) (m_cd s) -> eval_key W k = Ok om) /\
+    (forall k om ou, In (k, (om, ou)) (m_cd s) -> eval_key W k = Ok ou).
 
   Lemma Inv_init : Inv init.
   Proof. repeat split; intros; contradiction. Qed.
 
   Lemma Inv_clear : forall s c, Inv s -> Inv (clear s c).
   Proof.
-    intros s c (H1 & H2 & H3 & H4).
+    intros s c (H1 & H2 & H3 & H4 & H5).
     destruct c; cbn [clear]; try apply Inv_init;
       unfold Inv; cbn [m_so m_un m_ma m_cd set_res set_so set_un set_ma set_cd];
-      repeat split; intros; try contradiction; eauto; try (eapply H4; eassumption).
+      repeat split; intros; try contradiction; eauto.
   Qed.
 
   Lemma so_spec : forall s st t,
@@ -240,8 +255,8 @@ Section Repaired.
       destruct HI as (H1 & _). symmetry. apply H1. exact Hin.
     - cbn [eval_key]. destruct (evaluate W (n, m)) as [o|e] eqn:Ev; cbn [fst snd].
       + split; [|reflexivity].
-        destruct HI as (H1 & H2 & H3 & H4).
-        unfold Inv; cbn [m_so m_un m_ma m_cd set_so]. repeat split; eauto; try (eapply H4; eassumption).
+        destruct HI as (H1 & H2 & H3 & H4 & H5).
+        unfold Inv; cbn [m_so m_un m_ma m_cd set_so]. repeat split; eauto.
         intros k o' [E|Hin]; [|eauto]. injection E as <- <-. exact Ev.
       + split; [exact HI | reflexivity].
   Qed.
@@ -261,8 +276,8 @@ Section Repaired.
       rewrite (q_spec_idem st _ Hr) in Hs.
       destruct (static_order true W L s st (q_spec st t)) as [s1 [o|e]]; cbn [fst snd] in *.
       + split; [|exact Hs].
-        destruct HI1 as (H1 & H2 & H3 & H4).
-        unfold Inv; cbn [m_so m_un m_ma m_cd set_un]. repeat split; eauto; try (eapply H4; eassumption).
+        destruct HI1 as (H1 & H2 & H3 & H4 & H5).
+        unfold Inv; cbn [m_so m_un m_ma m_cd set_un]. repeat split; eauto.
         intros k kw' o' [E|Hin]; [|eauto]. injection E as <- _ <-. symmetry. exact Hs.
       + split; [exact HI1 | exact Hs].
   Qed.
@@ -282,8 +297,8 @@ Section Repaired.
       rewrite (q_spec_idem st _ Hr) in Hs.
       destruct (static_order true W L s st (q_spec st t)) as [s1 [o|e]]; cbn [fst snd] in *.
       + split; [|exact Hs].
-        destruct HI1 as (H1 & H2 & H3 & H4).
-        unfold Inv; cbn [m_so m_un m_ma m_cd set_ma]. repeat split; eauto; try (eapply H4; eassumption).
+        destruct HI1 as (H1 & H2 & H3 & H4 & H5).
+        unfold Inv; cbn [m_so m_un m_ma m_cd set_ma]. repeat split; eauto.
         intros k kw' o' [E|Hin]; [|eauto]. injection E as <- _ <-. symmetry. exact Hs.
       + split; [exact HI1 | exact Hs].
   Qed.
@@ -299,10 +314,11 @@ Section Repaired.
     intros s ust t HI. unfold codec. rewrite qualify_fixed.
     set (t0 := q_spec (l_chain L ECodec ++ ust) t).
     assert (Hr : is_ref t0) by apply q_spec_ref.
+    clearbody t0.
     destruct (find key_eqb t0 (m_cd s)) as [[om ou]|] eqn:F.
     - cbn [fst snd]. split; [exact HI|].
       apply find_In in F. destruct F as [k' [Hin He]]. apply key_eqb_eq in He. subst k'.
-      destruct HI as (_ & _ & _ & H4). destruct (H4 _ _ _ Hin) as [Ha Hb].
+      destruct HI as (_ & _ & _ & H4 & H5). pose proof (H4 _ _ _ Hin) as Ha. pose proof (H5 _ _ _ Hin) as Hb.
       rewrite Ha in Hb. injection Hb as <-. rewrite Ha. reflexivity.
     - destruct (ma_spec s (l_chain L ECodecM ++ ust) t0 true HI) as [HI1 Hm].
       rewrite (q_spec_idem _ _ Hr) in Hm.
@@ -313,10 +329,14 @@ Section Repaired.
       destruct (unmarshaller true W L s1 (l_chain L ECodecU ++ ust) t0 true) as [s2 [ou|e]]; cbn [fst snd] in *.
       2:{ split; [exact HI2|]. rewrite <- Hu in Hm. discriminate. }
       rewrite <- Hm in Hu. injection Hu as ->.
+      rewrite bytes_probe_fixed.
+      assert (Hp : probe_spec (l_chain L ECodecPost ++ ust) t0 = Ok om).
+      { destruct t0 as [x|n m]; [destruct Hr|]. cbn [probe_spec]. symmetry. exact Hm. }
+      rewrite Hp. cbn [fst snd].
       split; [|rewrite <- Hm; reflexivity].
-      destruct HI2 as (H1 & H2 & H3 & H4).
+      destruct HI2 as (H1 & H2 & H3 & H4 & H5).
       unfold Inv; cbn [m_so m_un m_ma m_cd set_cd]. repeat split; eauto;
-        try (intros k om' ou' [E|Hin]; [injection E as <- <- <-; symmetry; exact Hm | eapply H4; eassumption]).
+        intros k om' ou' [E|Hin]; eauto; injection E as <- <- <-; symmetry; exact Hm.
   Qed.
 
   (* what a call answers, as a function of the call alone *)
@@ -329,12 +349,17 @@ Section Repaired.
         | EForwardref =>
             match r with
             | RStr x => RRef (fst (fr_spec st x)) (snd (fr_spec st x)) (evaluate W (fr_spec st x))
-            | RFwd n m => RRef n m (evaluate W (n, m))
+            | RFwd _ _ => RErr EUnmodelled
             end
         | ECodec =>
             match pair_res (eval_key W (q_spec st (key_of r))) with
             | Ok (om, ou) => ROk [om; ou]
             | Err e => RErr e
+            end
+        | EDecode =>
+            match probe_spec (l_chain L EDecodePre ++ ust) (key_of r) with
+            | Err e => RErr e
+            | Ok _ => one (eval_key W (q_spec st (key_of r)))
             end
         | _ => one (eval_key W (q_spec st (key_of r)))
         end
@@ -352,9 +377,12 @@ Section Repaired.
     - destruct (ma_spec s (l_chain L EMarshal ++ ust) (key_of r) false HI) as [H1 H2].
       destruct (marshaller true W L s (l_chain L EMarshal ++ ust) (key_of r) false) as [s1 x]; cbn [fst snd] in *.
       split; [exact H1 | rewrite H2; reflexivity].
-    - destruct (un_spec s (l_chain L EDecode ++ ust) (key_of r) false HI) as [H1 H2].
-      destruct (unmarshaller true W L s (l_chain L EDecode ++ ust) (key_of r) false) as [s1 x]; cbn [fst snd] in *.
-      split; [exact H1 | rewrite H2; reflexivity].
+    - rewrite bytes_probe_fixed.
+      destruct (probe_spec (l_chain L EDecodePre ++ ust) (key_of r)) as [o0|e0].
+      + destruct (un_spec s (l_chain L EDecode ++ ust) (key_of r) false HI) as [H1 H2].
+        destruct (unmarshaller true W L s (l_chain L EDecode ++ ust) (key_of r) false) as [s1 x]; cbn [fst snd] in *.
+        split; [exact H1 | rewrite H2; reflexivity].
+      + cbn [fst snd]. split; [exact HI | reflexivity].
     - destruct (so_spec s (l_chain L EStaticOrder ++ ust) (key_of r) HI) as [H1 H2].
       destruct (static_order true W L s (l_chain L EStaticOrder ++ ust) (key_of r)) as [s1 x]; cbn [fst snd] in *.
       split; [exact H1 | rewrite H2; reflexivity].
@@ -370,6 +398,12 @@ Section Repaired.
       split; [exact H1 | rewrite H2; reflexivity].
     - destruct (un_spec s (l_chain L ECodecU ++ ust) (key_of r) false HI) as [H1 H2].
       destruct (unmarshaller true W L s (l_chain L ECodecU ++ ust) (key_of r) false) as [s1 x]; cbn [fst snd] in *.
+      split; [exact H1 | rewrite H2; reflexivity].
+    - destruct (un_spec s (l_chain L EDecodePre ++ ust) (key_of r) false HI) as [H1 H2].
+      destruct (unmarshaller true W L s (l_chain L EDecodePre ++ ust) (key_of r) false) as [s1 x]; cbn [fst snd] in *.
+      split; [exact H1 | rewrite H2; reflexivity].
+    - destruct (un_spec s (l_chain L ECodecPost ++ ust) (key_of r) false HI) as [H1 H2].
+      destruct (unmarshaller true W L s (l_chain L ECodecPost ++ ust) (key_of r) false) as [s1 x]; cbn [fst snd] in *.
       split; [exact H1 | rewrite H2; reflexivity].
   Qed.
 
@@ -431,23 +465,34 @@ Section Caller.
     destruct o; [reflexivity | discriminate].
   Qed.
 
-  Lemma resolve_body_caller : forall e pre c post s g m,
+  Lemma resolve_body_caller : forall chain pre c post s g m,
     is_ident s = true ->
-    lib_ok L e = true -> forallb (skipped (l_pkg L)) pre = true ->
+    forallb (skipped (l_pkg L)) chain = true -> forallb (skipped (l_pkg L)) pre = true ->
     lookup s (f_globals c) = Some g -> f_gname c = Some m -> skipped (l_pkg L) c = false ->
-    resolve_body true L (l_chain L e ++ pre ++ c :: post) s = Some m.
+    resolve_body true L (chain ++ pre ++ c :: post) s = Some m.
   Proof.
-    intros e pre c post s g m Hid Hl Hp Hg Hn Hs.
+    intros chain pre c post s g m Hid Hl Hp Hg Hn Hs.
     unfold resolve_body. rewrite (is_ident_no_dot s Hid). cbn [andb].
-    unfold lib_ok in Hl. rewrite (binding_skip _ _ _ _ Hl), (binding_skip _ _ _ _ Hp).
+    rewrite (binding_skip _ _ _ _ Hl), (binding_skip _ _ _ _ Hp).
     cbn [binding_module]. rewrite Hg, Hn.
     unfold skipped in Hs. rewrite Hn in Hs. apply orb_false_elim in Hs. destruct Hs as [H1 H2].
     rewrite H1, H2. reflexivity.
   Qed.
 
+  Lemma fr_spec_caller : forall chain pre c post s g m,
+    is_ident s = true ->
+    forallb (skipped (l_pkg L)) chain = true -> forallb (skipped (l_pkg L)) pre = true ->
+    lookup s (f_globals c) = Some g -> f_gname c = Some m -> skipped (l_pkg L) c = false ->
+    fr_spec L (chain ++ pre ++ c :: post) s = (s, Some m).
+  Proof.
+    intros chain pre c post s g m Hid Hl Hp Hg Hn Hs. unfold fr_spec.
+    rewrite (resolve_body_caller chain pre c post s g m Hid Hl Hp Hg Hn Hs).
+    rewrite (replace_no_dot m s (is_ident_no_dot s Hid)). reflexivity.
+  Qed.
+
   (* the main statement about a bare name: every history, every stack *)
   Lemma repaired_bare : forall h e pre c post s g m d o,
-    match e with ECodecM | ECodecU => False | _ => True end ->
+    match e with ECodecM | ECodecU | EDecodePre | ECodecPost => False | _ => True end ->
     is_ident s = true ->
     lib_ok L e = true -> forallb (skipped (l_pkg L)) pre = true ->
     lookup s (f_globals c) = Some g -> f_gname c = Some m -> skipped (l_pkg L) c = false ->
@@ -456,12 +501,12 @@ Section Caller.
   Proof.
     intros h e pre c post s g m d o He Hid Hl Hp Hg Hn Hs Hm Hd Ho.
     rewrite warm_spec.
-    pose proof (resolve_body_caller e pre c post s g m Hid Hl Hp Hg Hn Hs) as Hr.
+    unfold lib_ok in Hl. apply andb_true_iff in Hl. destruct Hl as [Hl Hl2].
     pose proof (evaluate_ident s m d o Hid Hm Hd Ho) as Hev.
-    assert (Hfr : fr_spec L (l_chain L e ++ pre ++ c :: post) s = (s, Some m)).
-    { unfold fr_spec. rewrite Hr. rewrite (replace_no_dot m s (is_ident_no_dot s Hid)). reflexivity. }
-    destruct e; try destruct He; cbn [call_spec key_of q_spec expect]; rewrite Hfr; cbn [fst snd eval_key];
-      rewrite Hev; reflexivity.
+    pose proof (fr_spec_caller (l_chain L e) pre c post s g m Hid Hl Hp Hg Hn Hs) as Hfr.
+    destruct e; try destruct He; cbn [call_spec key_of q_spec expect probe_spec];
+      try (rewrite (fr_spec_caller (l_chain L EDecodePre) pre c post s g m Hid Hl2 Hp Hg Hn Hs), Hev);
+      rewrite Hfr; cbn [fst snd eval_key]; rewrite Hev; reflexivity.
   Qed.
 
   (* a qualified name: the text before the first dot names the module; inside the guard the rest is
@@ -473,24 +518,26 @@ Section Caller.
     intros st m rest Hid Hg. unfold fr_spec, resolve_body.
     rewrite has_dot_qualified, (head_of_app m rest (is_ident_no_dot m Hid)), Hid. cbn [andb].
     
-    rewrite String.append_assoc.
+    rewrite str_app_assoc.
     rewrite replace_all_prefix.
     - rewrite Hg. reflexivity.
     - destruct m; discriminate.
   Qed.
 
   Lemma repaired_qualified : forall h e ust m rest,
-    match e with ECodecM | ECodecU | ECodec | EForwardref => False | _ => True end ->
+    match e with ECodecM | ECodecU | ECodec | EForwardref | EDecodePre | ECodecPost => False | _ => True end ->
     is_ident m = true -> replace_all (m ++ ".") rest = rest ->
     warm true W L h (OCall e (RStr (m ++ "." ++ rest)) ust) = one (evaluate W (rest, Some m)).
   Proof.
     intros h e ust m rest He Hid Hg. rewrite warm_spec.
-    destruct e; try destruct He; cbn [call_spec key_of q_spec];
-      rewrite (fr_spec_qualified _ m rest Hid Hg); reflexivity.
+    destruct e; try destruct He; cbn [call_spec key_of q_spec probe_spec];
+      rewrite ?(fr_spec_qualified _ m rest Hid Hg); cbn [fst snd eval_key];
+      try reflexivity.
+    destruct (evaluate W (rest, Some m)); reflexivity.
   Qed.
 
   Lemma repaired_qualified_name : forall h e ust m n d o,
-    match e with ECodecM | ECodecU | ECodec | EForwardref => False | _ => True end ->
+    match e with ECodecM | ECodecU | ECodec | EForwardref | EDecodePre | ECodecPost => False | _ => True end ->
     is_ident m = true -> is_ident n = true ->
     lookup m (w_modules W) = Some d -> lookup n d = Some o -> not_module o = true ->
     warm true W L h (OCall e (RStr (m ++ "." ++ n)) ust) = ROk [o].
@@ -500,3 +547,84 @@ Section Caller.
     rewrite (evaluate_ident n m d o Hn Hd Ho Hno). reflexivity.
   Qed.
 End Caller.
+
+(* ------------------------------------------------------------------------------------------- *)
+(* E. witnesses on the concrete instance of Model/RefsEq.v (code before the repair: L0; repaired: L1) *)
+(* ------------------------------------------------------------------------------------------- *)
+Require Import TL.Model.RefsEq.
+
+(* mod_a asks for "Node", then mod_b asks for "Node": mod_b is served mod_a's class *)
+Lemma refuted_cross_module :
+  warm false W0 L0 [call_a] call_b = ROk [cls 1 "mod_a"] /\
+  cold false W0 L0 call_b = ROk [cls 2 "mod_b"] /\
+  lookup "Node" d_mod_b = Some (cls 2 "mod_b").
+Proof. vm_compute. repeat split. Qed.
+
+(* each of the two memo layers is enough on its own *)
+Lemma refuted_resolver_memo :
+  warm false W0 L0 [call_a; OClear CSo; OClear CUn; OClear CMa; OClear CCd] call_b = ROk [cls 1 "mod_a"].
+Proof. vm_compute. reflexivity. Qed.
+
+Lemma refuted_factory_key :
+  warm false W0 L0 [call_a; OClear CRes] call_b = ROk [cls 1 "mod_a"].
+Proof. vm_compute. reflexivity. Qed.
+
+Lemma full_refuted : ~ Refs_full false.
+Proof.
+  intros H. specialize (H W0 L0 [call_a] call_b).
+  vm_compute in H. discriminate.
+Qed.
+
+(* without any history: a name the library's own frames bind is taken from there *)
+Lemma refuted_library_capture :
+  cold false W0 L0 (OCall EUnmarshal (RStr "TypeNode") [fa; fmain]) = ROk [cls 900 "typelib.graph"] /\
+  lookup "TypeNode" d_mod_a = Some (cls 4 "mod_a").
+Proof. vm_compute. split; reflexivity. Qed.
+
+(* without any history: the module of the OBJECT, not of the binding, is used (Alias = list[int]; an import
+   under another name) *)
+Lemma refuted_object_module :
+  cold false W0 L0 (OCall EUnmarshal (RStr "Alias") [fa; fmain]) = RErr ENameError /\
+  lookup "Alias" d_mod_a = Some (cls 3 "builtins") /\
+  cold false W0 L0 (OCall EUnmarshal (RStr "Thing") [fc; fmain]) = RErr ENameError /\
+  lookup "Thing" d_mod_c = Some (cls 1 "mod_a").
+Proof. vm_compute. repeat split. Qed.
+
+(* both variants: forwardref drops EVERY occurrence of "<module>." from the text, so app.webapp.Model
+   becomes webModel; the guard of repaired_qualified is necessary *)
+Lemma refuted_qualified_mangled :
+  forall fixed, cold fixed W0 (if fixed then L1 else L0) (OCall EUnmarshal (RStr "app.webapp.Model") [fc; fmain]) = RErr ENameError /\
+  evaluate W0 ("webapp.Model", Some "app") = Ok (cls 7 "app.webapp") /\
+  replace_all ("app" ++ ".") "webapp.Model" = "webModel".
+Proof. intros [|]; vm_compute; repeat split. Qed.
+
+(* repaired code: a name bound only in the caller's LOCALS (a class defined in the function body) is not
+   found in the module: "bound in the caller's globals" is necessary in repaired_bare *)
+Lemma repaired_refuted_local_only :
+  cold true W0 L1 (OCall EUnmarshal (RStr "Loc") [fc_local; fmain]) = RErr ENameError /\
+  frame_binding fc_local "Loc" = Some (cls 60 "mod_c").
+Proof. vm_compute. split; reflexivity. Qed.
+
+(* a name no module on the stack binds, found as a local of an OUTER frame: the module of the object is taken
+   (both variants), and the name is looked up there *)
+Lemma outer_local_falls_to_object_module :
+  forall fixed,
+  cold fixed W0 (if fixed then L1 else L0) (OCall EForwardref (RStr "Ghost") [fa; fouter_ghost; fmain])
+  = RRef "Ghost" (Some "mod_a") (Err ENameError).
+Proof. intros [|]; vm_compute; reflexivity. Qed.
+
+(* non-vacuity of repaired_bare and of repaired_qualified_name *)
+Lemma repaired_bare_example :
+  warm true W0 L1 [call_a; OCall ECodec (RStr "Node") [fa; fmain]] (OCall EUnmarshal (RStr "Node") [fb; fb_local; fmain])
+  = ROk [cls 2 "mod_b"] /\
+  lib_ok L1 EUnmarshal = true /\ skipped "typelib" fb = false /\ is_ident "Node" = true /\
+  libs_ok L1 = true.
+Proof. vm_compute. repeat split. Qed.
+
+Lemma repaired_examples :
+  warm true W0 L1 [call_a] (OCall EUnmarshal (RStr "Alias") [fa; fmain]) = ROk [cls 3 "builtins"] /\
+  warm true W0 L1 [call_a] (OCall EMarshal (RStr "TypeNode") [fa; fmain]) = ROk [cls 4 "mod_a"] /\
+  warm true W0 L1 [call_a] (OCall EDecode (RStr "Thing") [fc; fmain]) = ROk [cls 1 "mod_a"] /\
+  warm true W0 L1 [call_b] (OCall EUnmarshal (RStr "mod_a.Node") [fb; fmain]) = ROk [cls 1 "mod_a"] /\
+  warm true W0 L1 [call_b] (OCall EForwardref (RStr "Node") [fa; fb_local; fmain]) = RRef "Node" (Some "mod_a") (Ok (cls 1 "mod_a")).
+Proof. vm_compute. repeat split. Qed.
